@@ -11,6 +11,7 @@ import {
   IDiffEntry,
   IDiffObjectEntry,
   IDiffPatch,
+  opAdd,
   opRemove,
   opReplace,
   opRemoveRange,
@@ -497,7 +498,17 @@ function resolveAction(base: any, decision: MergeDecision): IDiffEntry[] {
       }
     }
     if (key) {
-      let d = opReplace(key, makeClearedValue(base[key]));
+      let d: IDiffObjectEntry;
+      if (base[key] === undefined) {
+        // Both sides added the key (with different values):
+        // add a cleared value of the type they added
+        let added = (
+          _combineDiffs(decision.localDiff, decision.remoteDiff) as any[]
+        )[0].value;
+        d = opAdd(key, makeClearedValue(added));
+      } else {
+        d = opReplace(key, makeClearedValue(base[key]));
+      }
       d.source = { decision, action: 'custom' };
       return [d];
     } else {
